@@ -365,17 +365,27 @@ def _pgq_clauses():
         return rs[0] == "result(data=None,errors)"   # request error during execute(): data null
 
     def stages_in_order(p):
-        order = [e for e in p.events if e in ("parse", "validate", "execute")]
+        order = ["validate" if e.startswith("validate(") else e for e in p.events if e in ("parse", "execute") or e.startswith("validate(")]
         return order == sorted(order, key=["parse", "validate", "execute"].index)
 
     def stage_around(p):
         ok = True
+        evs = tuple("validate" if x.startswith("validate(") else x for x in p.events)
         for call, s, e in (("parse", "parsing+", "parsing-"), ("validate", "validation+", "validation-")):
-            if call in p.events:
-                ok = ok and 0 <= index(p.events, s) < index(p.events, call) and (index(p.events, e) > index(p.events, call) or not _library_outcome(p))
+            if call in evs:
+                ok = ok and 0 <= index(evs, s) < index(evs, call) and (index(evs, e) > index(evs, call) or not _library_outcome(p))
         return ok
 
+    def validates_every_request(p):
+        # a request that reaches execution, or is answered with validation errors, has been validated by THIS call with the request's validators
+        if "execute" in p.events or (p.outcome == "return" and "parse" in p.events and _results(p) and "execute" not in p.events and "validation+" in p.events):
+            v = [e for e in p.events if e.startswith("validate")]
+            return len(v) == 1 and v[0] == "validate(validators=validators)" and ("execute" not in p.events or p.events.index(v[0]) < p.events.index("execute"))
+        return None
+
     return [
+        ("validated-by-this-request's-validators", "the document is validated exactly once per request, with the validators of that request, before anything is executed "
+                                                   "(no verdict is reused from another request)", validates_every_request),
         ("stage-hooks-at-most-once", "every stage hook fires at most once per request", once),
         ("stage-hooks-paired-and-nested", "on every path that returns a result, stage hooks are properly nested start/end pairs and no started stage is left open", _balanced_on_return),
         ("query-stage-outermost", "the query stage starts first and, when a result is returned, ends last", query_outermost),
@@ -966,7 +976,9 @@ TRACE_CONTRACTS = [
          config=_stage_cfg(extra_events=[(r"^GraphQLResult$", lambda call, args, kwargs: "result(%s)" % ",".join(
              (["positional"] if args else []) + [("data=None" if isinstance(kwargs[k], T.Const) and kwargs[k].value is None else "data=?") if k == "data" else k
                                                  for k in kwargs])),
-                                         (r"^parse$", "parse"), (r"^validate_ast$", "validate"), (r"^execute$", "execute"), (r"schema\.validate$", "schema.validate")],
+                                         (r"^parse$", "parse"),
+                                         (r"^validate_ast$", lambda call, args, kwargs: "validate(%s)" % ",".join("%s=%s" % (k.arg, __import__("ast").unparse(k.value)) for k in call.keywords)),
+                                         (r"^execute$", "execute"), (r"schema\.validate$", "schema.validate")],
                          extra_nothrow=[r"^GraphQLResult$"], callbacks=[(r"runtime\.map_value$", map_value_contract)]),
          clauses=_pgq_clauses(),
          assumes=["Runtime.map_value effect contract", "instrumentation hooks, ensure_wrapped and GraphQLResult() do not raise",
